@@ -10,8 +10,10 @@ THEOREMS = ["C16_unit_spellings_agree", "C16_out_of_range_rejected",
             "C16_parse_print_rfc3339_gen", "C16_parse_print_rfc3339",
             "C16_iso_spellings_agree", "C16_iso_string_agree", "C16_iso_and_integer_agree",
             "C16_parse_print_date", "C16_date_string_agree",
-            "C16_sites_agree", "C16_sites_agree_nonneg", "C16_u64_fallback_wraps_negative",
-            "C16_prune_sound_outside_known", "C16_prune_sound_literal", "C16_prune_sound_after_fix", "C16_prune_refuted",
+            "C16_sites_agree", "C16_matspec_u64_fallback_range",
+            "C16_prune_sound_outside_known", "C16_prune_sound_literal", "C16_unparsable_since_keeps_all",
+            "C16_select_sound", "C16_select_neq_keeps_all", "C16_bucket_wrap_refuted",
+            "C16_json_float_floor_or_rejected", "C16_json_integer_never_misread",
             "C16_decimal_string_is_integer", "C16_all_string_spellings_agree"]
 RULE = ("instants (whole second t in year 1..9999 or a digit-band edge, plus a sub-second part) x spellings "
         "(RFC 3339 with random offset/fraction/separator, date-only at midnight, integer s/ms/us/ns as string "
@@ -38,7 +40,7 @@ TRUSTED = [
 
 CLAIMED = True
 MANIFEST = {
- "level_text": "Theorems (all instants, no bound unless stated): every in-band integer spelling (s/ms/us/ns) of an instant normalises to the floor of the instant and 20+ digit magnitudes are rejected; Hinnant's calendar algorithms are mutually inverse on all of Z (one 400-year cycle checked exhaustively by the kernel, extended by the shift lemmas); the model of chrono's RFC 3339 parser inverts the printer, hence EVERY ISO spelling (any offset |off| <= 23:59 written Z/z/+HH:MM/-HH:MM/U+2212, any fraction digits, separator T/t/space, surrounding white space) of an instant in years 0000..9999 parses to the floor of the instant, and agrees with the integer spellings; date-only spellings give midnight UTC. Call sites (payload normaliser, WHERE rows, SINCE rows, planner literal rewriting, zone pruner, materialised-query SINCE) read every literal as the same second (sites_agree), and the zone pruner over the artifacts of the temporal builder keeps every zone holding a matching event when literal and stamps lie in [0, 2^32) (prune_sound_outside_known); five classes outside that are refuted with witnesses and reported as known findings. The digit bands / division operator are regenerated from src/shared/time.rs; the model of TimeParser and of the six call sites is run against the real code (TimeParser, PayloadTimeNormalizer, ConditionEvaluatorBuilder, QueryPlan + FilterGroupBuilder::build_all, TemporalIndexBuilder + TemporalPruner, MaterializedQuerySpecExt::delta_command) on generated and mutated spellings.",
+ "level_text": "Theorems (all instants, no bound unless stated): every in-band integer spelling (s/ms/us/ns) of an instant normalises to the floor of the instant and 20+ digit magnitudes are rejected; Hinnant's calendar algorithms are mutually inverse on all of Z (one 400-year cycle checked exhaustively by the kernel, extended by the shift lemmas); the model of chrono's RFC 3339 parser inverts the printer, hence EVERY ISO spelling (any offset |off| <= 23:59 written Z/z/+HH:MM/-HH:MM/U+2212, any fraction digits, separator T/t/space, surrounding white space) of an instant in years 0000..9999 parses to the floor of the instant, and agrees with the integer spellings; date-only spellings give midnight UTC. Call sites (payload normaliser, WHERE rows, SINCE rows, planner literal rewriting, zone pruner, materialised-query SINCE) read every literal as the same second (sites_agree), and the zone pruner over the artifacts of the temporal builder keeps every zone holding a matching event when literal and stamps lie in [0, 2^32) (prune_sound_outside_known, after fix db7c428: every literal second in [-2^63, 2^32), pre-1970 literals and stamps included), an unparsable SINCE rules out no zone, the field selector keeps every zone holding a match for all six operators (select_sound, fix f801704), a JSON number is stored as the floor of the written value or rejected (fix 8f02d15); the one remaining class (bucket ids truncated to u32, stamps/literals from 2106 on) is refuted with a witness and reported as a known finding. The digit bands / division operator are regenerated from src/shared/time.rs; the model of TimeParser and of the six call sites is run against the real code (TimeParser, PayloadTimeNormalizer, ConditionEvaluatorBuilder, QueryPlan + FilterGroupBuilder::build_all, TemporalIndexBuilder + TemporalPruner + FieldSelector, MaterializedQuerySpecExt::delta_command) on generated and mutated spellings.",
  "design_ref": "DESIGN.md \u00a76 C16",
  "level_note": "Trusted: Coq kernel (vm_compute for the exhaustive 400-year cycle and closed witnesses); tools/gen_params.py; ExtrOcamlBasic extraction + OCaml driver; the Rust harness (condition builders observed through Debug); CPython datetime (oracle). chrono's parsers are modelled by hand (differentially tested, not proved); the printer theorems cover four-digit years; named time zones, PER bucketing and the engine-level row selection are not modelled."
 }
@@ -276,12 +278,14 @@ def site_cases(rng, tier, add, out):
                 col = "timestamp"
                 zones = [[z, [x for x in st if x >= 0] or [0]] for z, st in zones]   # core timestamps are u64
             op = rng.choice(OPS + OPS + ["neq"])
+            probe = "tsite_select" if (op == "neq" or rng.chance(1, 4)) else "tsite_prune"
             if rng.chance(1, 4) and exp is not None and -2 ** 63 <= exp < 2 ** 63:
                 kind_, l2, v = "i", str(exp), exp          # the literal after the planner's rewriting
             else:
                 kind_, l2, v = "s", lit, exp
             ztxt = ";".join(f"{z}:{','.join(str(x) for x in st)}" for z, st in zones)
-            out.append({"kind": "site_prune", "line": f"tsite_prune {col} {op} {kind_} {hx(l2)} {ztxt}", "expect": None,
+            out.append({"kind": "site_select" if probe == "tsite_select" else "site_prune",
+                        "line": f"{probe} {col} {op} {kind_} {hx(l2)} {ztxt}", "expect": None,
                         "show": f"{col} {op} {l2!r} zones={ztxt}", "op": op, "v": v, "zones": zones, "since_sem": False, "lit": l2})
         if rng.chance(1, 8):
             # SINCE with a literal that no site can parse: the row filter ignores it, so every zone must stay
@@ -483,12 +487,14 @@ def oracle(c, impl):
         if f["PR"] != str(v):
             return f"the zone pruner looks up instant {f['PR']} for the literal {c.get('show')!r} that every other site reads as {v}"
         return None
-    if kind in ("site_prune", "site_prune_since"):
+    if kind in ("site_prune", "site_prune_since", "site_select"):
+        if kind == "site_prune" and c["op"] in ("neq", "in") and impl == "NONE":
+            return None        # the temporal index does not answer != / IN; what the selector makes of it: site_select
         lost = _lost_zones(c, impl)
         if lost is None:
             return f"unreadable pruner answer {impl!r}"
         if lost:
-            return (f"the pruner answered {impl} and so drops zone(s) {lost} that hold events satisfying "
+            return (f"the {'field selector' if kind == 'site_select' else 'pruner'} answered {impl} and so drops zone(s) {lost} that hold events satisfying "
                     f"{c['op']} {c['lit']!r} (= second {c['v']}): {c.get('show')}")
         return None
     if kind == "engine_sel":
@@ -524,6 +530,8 @@ def oracle(c, impl):
     exp = c.get("expect")
     if exp is None:
         return None
+    if kind.startswith("jint") and not (-2 ** 63 <= int(c["show"]) < 2 ** 64) and impl == "N":
+        return None            # kept by serde_json as f64: out of the i64 range of float seconds, rejected (never misread)
     if impl != f"S {exp}":
         return f"spelling {c.get('show')!r} of the instant with floor second {exp} was normalised to {impl}"
     return None
@@ -537,53 +545,28 @@ def _u64(lit):
 
 
 def classify(c, impl):
+    """Known classes still present after the fix round: only CalendarBucketWrapsAfter2106 (bucket ids truncated to
+    u32).  The classes repaired by 8f02d15 / db7c428 / f801704 are no longer returned: if one of them comes back it
+    is a VIOLATION."""
     kind = c.get("kind", "")
-    # a JSON integer literal below i64::MIN is kept by serde_json as f64 and then read as float SECONDS
-    if kind.startswith("jint") and int(c["show"]) < -2 ** 63:
-        return "JsonIntegerBelowI64ReadAsFloatSeconds"
-    if kind == "site_all":
-        f = _site_all_fields(impl) or {}
-        v = _num(f.get("PDT", ""), ("S",))
-        if v is not None and v < 0 and f.get("PR") == "0":
-            return "NegativeInstantClampedByPruner"
-        return None
     if kind == "engine_sel":
-        if c["phase"] != "seg" or not impl or not impl.startswith("R "):
-            return None                                      # rows in memory must be exact
+        if c["phase"] != "seg" or not impl or not impl.startswith("R ") or c["v"] is None or c["op"] == "neq":
+            return None
         got = set() if impl == "R -" else set(int(x) for x in impl[2:].split(","))
-        tof = dict(c["events"])
-        truth = set(tof) if c["v"] is None else set(k for k, t in c["events"] if _cmp(c["op"], t, c["v"]))
+        truth = set(k for k, t in c["events"] if _cmp(c["op"], t, c["v"]))
         if got - truth:
             return None                                      # extra rows are never a known class
-        # zones of two events in store order
         zone_of = {k: [x for _, x in c["events"][(i // 2) * 2:(i // 2) * 2 + 2]] for i, (k, _) in enumerate(c["events"])}
         lost = truth - got
-        if c["op"] == "neq":
-            return "TemporalNeqPrunesAllZones"
-        if c["v"] is None:
-            u = _u64(c["lit"])
-            return "UnparsableSinceU64WrapsNegative" if u is not None and u >= 2 ** 63 else None
-        if lost and all(any(x < 0 for x in zone_of[k]) for k in lost):
-            return "PreEpochZoneNotInCalendar"
-        if c["v"] < 0:
-            return "NegativeInstantClampedByPruner"
-        if c["v"] >= U32 or any(x >= U32 for k in lost for x in zone_of[k]):
+        if c["v"] >= U32 or (lost and all(any(x >= U32 for x in zone_of[k]) for k in lost)):
             return "CalendarBucketWrapsAfter2106"
         return None
-    if kind in ("site_prune", "site_prune_since"):
+    if kind in ("site_prune", "site_prune_since", "site_select"):
+        if c["v"] is None or c["op"] == "neq":
+            return None
         lost = _lost_zones(c, impl) or []
         stamps = {z: st for z, st in c["zones"]}
-        if c["op"] == "neq":
-            return "TemporalNeqPrunesAllZones"
-        if c["v"] is None:
-            u = _u64(c["lit"])
-            if u is not None and u >= 2 ** 63:
-                return "UnparsableSinceU64WrapsNegative"
-        if lost and all(any(x < 0 for x in stamps[z]) for z in lost):
-            return "PreEpochZoneNotInCalendar"
-        if c["v"] is not None and c["v"] < 0:
-            return "NegativeInstantClampedByPruner"
-        if (c["v"] is not None and c["v"] >= U32) or any(x >= U32 for z in lost for x in stamps[z]):
+        if c["v"] >= U32 or (lost and all(any(x >= U32 for x in stamps[z]) for z in lost)):
             return "CalendarBucketWrapsAfter2106"
         return None
     return None
